@@ -6,7 +6,7 @@ def show_ref(r):
     if r["c"] == "const":
         return repr(pg.decode(r["v"]))
     if r["c"] == "param":
-        return f"p{r['n']}"
+        return f"p{r['n']}" + "".join(f"[{k['i'] if k['k'] == 'i' else repr(k['x'])}]" for k in r.get("path", []))
     if r["c"] == "site":
         return f"s{r['n']}" + "".join(f"[{k['i'] if k['k'] == 'i' else repr(k['x'])}]" for k in r["path"])
     return "-"
